@@ -381,7 +381,7 @@ Section Reader.
   Proof.
     intros Ha Hb. unfold after_band.
     apply safe_read; [exact Logic.I | exact HI|]. intros rep _.
-    destruct (meta_is_file rep); auto.
+    destruct (meta_is_closed rep); auto.
     cbn [Inv.safe]. split; [reflexivity|]. cbn [sres_ok opt_ok SInv]. auto.
   Qed.
 
